@@ -567,6 +567,7 @@ comsgInit(void)
 		nErrors		= 0;
 		nWarnings	= 0;
 		nRemarks	= 0;
+		nNotes		= 0;
 		comsgIsInit	= 1;
 
 		abMaxPos	= abNewNothing(sposNone);
